@@ -180,8 +180,8 @@ Proof.
       clear EAL.
       unfold lookup_name. fold cands.
       unfold strategy_interest.
-      assert (SUP : suppressed now nonce (upd_expiry now e1) =
-                    existsb (fun o => negb (or_nonce o =? nonce) && (now <? or_at o + suppression)) (c02_outs s i)).
+      assert (SUP : suppressed (strat_of (strat s) (i_name i)) now nonce (upd_expiry now e1) =
+                    existsb (fun o => negb (or_nonce o =? nonce) && (now <? or_at o + suppression (strat_of (strat s) (i_name i)))) (c02_outs s i)).
       { unfold suppressed. cbn [pe_outs upd_expiry set_q]. rewrite O1, EO. reflexivity. }
       destruct allowed as [|a0 ar] eqn:EA.
       * (* no next hop offered to the strategy *)
